@@ -111,8 +111,10 @@ cmp -s "$W/gen/Gen_g0.v" "$W/Gen_g0.first" && cmp -s "$W/gen/Gen_g0.v.json" "$W/
 
 # ------------------------------------------------------------------ 3. validate
 note "compiling generated modules"
+export COQ W
+echo g0 $REALPKGS | tr ' ' '\n' | xargs -P "$JOBS" -I{} sh -c 'cd "$W/gen" && timeout 300 $COQ "Gen_{}.v" >"$W/Gen_{}.log" 2>&1 || echo "coqc failed" >>"$W/Gen_{}.log"'
 for m in g0 $REALPKGS; do
-  (cd "$W/gen" && timeout 300 $COQ "Gen_$m.v" >"$W/Gen_$m.log" 2>&1) || { head -30 "$W/Gen_$m.log"; fail "generated Gen_$m.v does not compile"; }
+  if [ ! -f "$W/gen/Gen_$m.vo" ] || [ -s "$W/Gen_$m.log" ]; then head -30 "$W/Gen_$m.log"; fail "generated Gen_$m.v does not compile"; fi
 done
 
 note "running the Go side (N=$N, SEED=$SEED)"
@@ -120,14 +122,14 @@ note "running the Go side (N=$N, SEED=$SEED)"
 : >"$W/jobs"
 for m in g0 $REALPKGS; do
   mkdir -p "$W/chk/$m"
-  groups=1; [ "$m" = g0 ] && groups=$((JOBS * 2))
+  groups=1; [ "$m" = g0 ] && groups=32   # small files: each stays far below the coqc timeout
   "$W/harness" -pkg "$m" -dir "$W/chk/$m" -req "From T Require Import Gen_$m." -seed "$SEED" -n "$N" -groups "$groups" || { fail "harness $m"; continue; }
   for f in "$W/chk/$m"/Check_*.v; do echo "$f" >>"$W/jobs"; done
 done
 
 note "running the Coq side ($(wc -l <"$W/jobs") files, $JOBS jobs)"
 export COQ
-xargs -P "$JOBS" -I{} sh -c 'cd "$(dirname {})" && timeout 300 $COQ "$(basename {})" > {}.log 2>&1 || echo "coqc failed" >> {}.log' <"$W/jobs"
+xargs -P "$JOBS" -I{} sh -c 'cd "$(dirname {})" && timeout 300 $COQ "$(basename {})" > {}.log 2>&1 || echo "coqc failed or timed out (exit $?)" >> {}.log' <"$W/jobs"
 
 total=0
 for m in g0 $REALPKGS; do
@@ -140,8 +142,11 @@ for m in g0 $REALPKGS; do
       total=$((total + 1))
       [ "$cases" -ge 2000 ] || [ "$N" -lt 2000 ] || fail "$m.$fn: only $cases points"
     else
-      fail "$m.$fn: Go and generated Gallina disagree or check did not run: ${line:-see $log}"
-      grep -B2 -A12 "Error" "$log" | head -30
+      if [ -n "$line" ]; then
+        fail "$m.$fn: Go and generated Gallina DISAGREE (cases, first mismatching indices): $line"
+      else
+        fail "$m.$fn: check did not complete: $(grep -h "coqc failed\|Error" "$log" | head -2 | tr '\n' ' ')"
+      fi
     fi
   done <"$W/chk/$m/checks.txt"
 done
